@@ -1,0 +1,98 @@
+//go:build verif
+
+package ptracer
+
+// Contracts for gocv (see /verif/DESIGN.md). Comment-only; compiled only with
+// the build tag "verif".
+
+//@ global ptracer.pageSize props C15: invariant pageSize >= 1 && pageSize <= 1073741824
+
+//@ func ptracer.init#1
+//@   arith bv
+//@   assigns pageSize
+//@   ensures pageSize >= 1 && pageSize <= 1073741824
+
+//@ func ptracer.clen props C15
+//@   arith int
+//@   assigns nothing
+//@   ensures 0 <= result && result <= len(b)
+//@   ensures result < len(b) ==> b[result] == 0
+//@   ensures forall k int :: 0 <= k && k < result && k < len(b) ==> b[k] != 0
+//@   loop 0: invariant 0 <= i && i <= len(b)
+//@   loop 0: invariant forall k int :: 0 <= k && k < i ==> b[k] != 0
+//@   loop 0: decreases len(b) - i
+
+//@ func ptracer.hasNull props C15
+//@   arith int
+//@   assigns nothing
+//@   ensures result <==> exists k int :: 0 <= k && k < len(buff) && buff[k] == 0
+//@   loop 0: invariant -1 <= rangeindex && rangeindex < len(buff)
+//@   loop 0: invariant forall k int :: 0 <= k && k <= rangeindex ==> buff[k] != 0
+//@   loop 0: decreases len(buff) - rangeindex
+
+//@ func ptracer.getIovec
+//@   inline
+//@ func ptracer.getIovecs
+//@   inline
+//@ func ptracer.processVMReadv
+//@   inline
+
+//@ func ptracer.vmRead props C15
+//@   arith int
+//@   requires len(buff) >= 1
+//@   assigns all(buff)
+//@   ensures result.1 == nil ==> 0 <= result.0 && result.0 <= len(buff)
+
+//@ func ptracer.vmReadStr props C15
+//@   arith int
+//@   assigns all(buff)
+//@   loop 0: invariant nextRead >= 1
+//@   loop 0: invariant totalRead >= 0
+//@   loop 0: invariant totalRead + len(buff) <= old(len(buff))
+//@   loop 0: invariant sarr(buff) == sarr(old(buff)) && soff(buff) >= soff(old(buff)) && soff(buff) + len(buff) <= soff(old(buff)) + old(len(buff))
+//@   loop 0: decreases len(buff)
+
+//@ func ptracer.(*Context).GetString props C15
+//@   arith int
+//@   assigns UseVMReadv
+//@   ensures len(result) >= 0
+
+//@ func ptracer.(*Context).SyscallNo props C02 C15
+//@   arith bv
+//@   assigns nothing
+//@   ensures uint64(result) == c.regs.Orig_rax
+//@ func ptracer.(*Context).Arg0 props C02 C15
+//@   arith bv
+//@   assigns nothing
+//@   ensures uint64(result) == c.regs.Rdi
+//@ func ptracer.(*Context).Arg1 props C02 C15
+//@   arith bv
+//@   assigns nothing
+//@   ensures uint64(result) == c.regs.Rsi
+//@ func ptracer.(*Context).Arg2 props C02 C15
+//@   arith bv
+//@   assigns nothing
+//@   ensures uint64(result) == c.regs.Rdx
+//@ func ptracer.(*Context).Arg3 props C02 C15
+//@   arith bv
+//@   assigns nothing
+//@   ensures uint64(result) == c.regs.R10
+//@ func ptracer.(*Context).Arg4 props C02 C15
+//@   arith bv
+//@   assigns nothing
+//@   ensures uint64(result) == c.regs.R8
+//@ func ptracer.(*Context).Arg5 props C02 C15
+//@   arith bv
+//@   assigns nothing
+//@   ensures uint64(result) == c.regs.R9
+
+//@ func ptracer.(*Context).SetReturnValue props C03
+//@   arith bv
+//@   assigns c.regs.Rax
+//@   ensures c.regs.Rax == uint64(retval)
+
+//@ func ptracer.(*Context).skipSyscall props C03
+//@   arith bv
+//@   assigns c.regs.Orig_rax, T.setregs_count, T.setregs_orig_rax, T.setregs_rax, T.setregs_pid
+//@   ensures c.regs.Orig_rax == 18446744073709551615
+//@   ensures T.setregs_count == old(T.setregs_count) + 1 && T.setregs_orig_rax == 18446744073709551615 && T.setregs_rax == old(c.regs.Rax) && T.setregs_pid == c.Pid
